@@ -997,6 +997,24 @@ class Ev:
                 if r:
                     return True
             return False
+        if isinstance(s, ast.While):
+            # bounded unrolling: the test is decided by the hook; after
+            # max_while iterations it is taken as False (the rule states the
+            # bound it explored)
+            bound = getattr(self, 'max_while', 2)
+            for _ in range(bound):
+                c = self.decide(s.test)
+                if c is None:
+                    raise Inconclusive('undecided loop test ' +
+                                       unparse(s.test))
+                if not c:
+                    return self.run(s.orelse) if s.orelse else False
+                r = self.run(s.body)
+                if r == 'continue':
+                    continue
+                if r:
+                    return True
+            return False
         if isinstance(s, (ast.Pass, ast.Import, ast.ImportFrom)):
             return False
         raise Inconclusive('statement ' + type(s).__name__)
